@@ -205,6 +205,10 @@ def run(chk, replay_rec):
     for gmp in sorted({1, 2, ncpu}):
         out = chk.vh(["c09-pool-record"], timeout=600, env={"GOMAXPROCS": str(gmp)})
         rec = json.loads(out.strip().splitlines()[0])
+        rec["events"] = rec.get("events") or []
+        if not rec["events"]:
+            chk.notes.append("GOMAXPROCS=%d: the render produced no pool events (pool not used?)" % gmp)
+            continue
         cfg = POOLTRACE_CFG % (max(ncpu, max([e[1] for e in rec["events"] if e[0] >= 3] + [1])), rec["n"], 100, rec["layers"])
         res = chk.tlc("EvalPoolTrace", cfg_text=cfg, workers=1, timeout=900, count=False,
                       files={"trace.ndjson": json.dumps(dict(events=rec["events"])) + "\n"},
